@@ -134,14 +134,16 @@ Example C05_compound_order_witness :
   run spec_d [] vs e = Some (0, OP (PNum 0x4000000000000000), [OP (PNum 0x4000000000000000)], []).
 Proof. vm_compute. split; reflexivity. Qed.
 
-(* typeof (1 ? nope : 0): 11.12 returns GetValue of the branch (ReferenceError, tag 4); otto hands the
-   Reference on and typeof answers "undefined" *)
-Theorem C05_cond_reference_refuted : exists e, run model_d [] [] e <> run spec_d [] [] e.
-Proof.
-  exists (EUn 4 (ECond (ELit (VP (PBool true))) EUnres (ELit (VP PNull)))).
-  vm_compute. discriminate.
-Qed.
-Print Assumptions C05_cond_reference_refuted.
+(* typeof (1 ? nope : 0): 11.12 returns GetValue of the branch, so the unresolvable name throws
+   ReferenceError (tag 4); (1 ? o.f : 0)() runs with the global object as this.  Former witnesses of
+   C05-cond-reference, repaired by /repo commit 07b2f1f: both dialects give the ES5 result *)
+Example C05_cond_reference_witness :
+  let T := ELit (VP (PBool true)) in
+  let e1 := EUn 4 (ECond T EUnres (ELit (VP PNull))) in
+  let e2 := ECall (ECond T (EMem 1 3 PNull) (ELit (VP PNull))) in
+  run model_d [] [] e1 = run spec_d [] [] e1 /\ run spec_d [] [] e1 = Some (4, OP PUndef, [], []) /\
+  run model_d [] [] e2 = run spec_d [] [] e2 /\ run spec_d [] [] e2 = Some (0, OP (PNum 0), [], []).
+Proof. vm_compute. repeat split; reflexivity. Qed.
 
 (* String(9007199254740993) *)
 Theorem C05_int_repr_tostring_refuted :
